@@ -273,6 +273,12 @@ func newRTPEncoder(
 		return (*rtpEncoderMPEG1Video)(wrapped), nil
 
 	case *format.MJPEG:
+		// a RTP/M-JPEG packet must be able to contain the main header (8 bytes), the restart marker
+		// header (4), the quantization table header (4), two quantization tables (128) and some data.
+		if rtpMaxPayloadSize < 8+4+4+128+16 {
+			return nil, fmt.Errorf("RTP maximum payload size (%d) is too small for M-JPEG", rtpMaxPayloadSize)
+		}
+
 		wrapped := &rtpmjpeg.Encoder{
 			PayloadMaxSize:        rtpMaxPayloadSize,
 			SSRC:                  ssrc,
